@@ -191,6 +191,18 @@ func (mi *MessageInfo) skipField(b []byte, f *coderFieldInfo, wtyp protowire.Typ
 	}
 }
 
+// setLazyIndex stores the index of the fields deferred while unmarshaling.
+func setLazyIndex(lazy *protolazy.XXX_lazyUnmarshalInfo, lazyIndex []protolazy.IndexEntry, outOfOrder bool) {
+	if outOfOrder {
+		sort.Slice(lazyIndex, func(i, j int) bool {
+			return lazyIndex[i].FieldNum < lazyIndex[j].FieldNum ||
+				(lazyIndex[i].FieldNum == lazyIndex[j].FieldNum &&
+					lazyIndex[i].Start < lazyIndex[j].Start)
+		})
+	}
+	lazy.SetIndex(lazyIndex)
+}
+
 // unmarshalPointerLazy is similar to unmarshalPointerEager, but it
 // specifically handles lazy unmarshalling.  it expects lazyOffset and
 // presenceOffset to both be valid.
@@ -223,6 +235,14 @@ func (mi *MessageInfo) unmarshalPointerLazy(b []byte, p pointer, groupTag protow
 				opts.flags |= piface.UnmarshalAliasBuffer
 			}
 			(*lazy).SetBuffer(b)
+			defer func() {
+				if err != nil {
+					// Decoding stopped early. Record where the fields deferred
+					// so far are: later uses of the message must not need to
+					// index the retained buffer, which is not valid wire data.
+					setLazyIndex(*lazy, lazyIndex, outOfOrder)
+				}
+			}()
 		}
 	}
 	// Track special handling of lazy fields.
@@ -443,18 +463,10 @@ func (mi *MessageInfo) unmarshalPointerLazy(b []byte, p pointer, groupTag protow
 		}
 	}
 	if lazyDecode {
-		if outOfOrder {
-			sort.Slice(lazyIndex, func(i, j int) bool {
-				return lazyIndex[i].FieldNum < lazyIndex[j].FieldNum ||
-					(lazyIndex[i].FieldNum == lazyIndex[j].FieldNum &&
-						lazyIndex[i].Start < lazyIndex[j].Start)
-			})
-		}
 		if *lazy == nil {
 			*lazy = &protolazy.XXX_lazyUnmarshalInfo{}
 		}
-
-		(*lazy).SetIndex(lazyIndex)
+		setLazyIndex(*lazy, lazyIndex, outOfOrder)
 	}
 	if mi.numRequiredFields > 0 && bits.OnesCount64(requiredMask) != int(mi.numRequiredFields) {
 		initialized = false
